@@ -182,7 +182,7 @@ fn hostile_world(rng: &mut Rng) -> (World, &'static str) {
         }
         _ => {
             label = "include-oddities";
-            let inc = *rng.pick(&["", ".", "..", "/", "main.circom", "./main.circom", "nonexistent.circom", "a\nb", "\\", "//", "/dev/null", "/proc/self/mem"]);
+            let inc = *rng.pick(&["", ".", "..", "/", "main.circom", "./main.circom", "nonexistent.circom", "a\nb", "\\", "//", "/dev/null", "/etc/hostname"]);
             format!("pragma circom 2.0.0;\ninclude \"{inc}\";\ntemplate T() {{\n  signal input a;\n}}\n")
         }
     };
